@@ -135,6 +135,17 @@ struct Decl {
     binder: usize,
     /// For Prop(Prim) declarations: the literal property name (known statically).
     prop_name: Option<String>,
+    /// This function only forwards to another one, passing its own first parameter - which
+    /// carries the name of the callee's *first* parameter - in the callee's *last* position.
+    delegate: Option<Delegate>,
+}
+
+#[derive(Clone, Debug)]
+struct Delegate {
+    qualifier: Option<(String, usize)>,
+    name: String,
+    binder: usize,
+    params: Vec<(String, Kind)>,
 }
 
 #[derive(Clone, Debug)]
@@ -1043,9 +1054,39 @@ pub fn generate(rng: &mut Rng, cfg: &GenCfg) -> ProgramAst {
                 }
             }
             own_names.insert(name.clone());
-            let is_fun = !is_ref && !matches!(kind, Kind::Text | Kind::Status | Kind::Rel | Kind::Transfer) && rng.chance(1, 4);
+            let mut kind = kind;
+            let mut is_fun = !is_ref && !matches!(kind, Kind::Text | Kind::Status | Kind::Rel | Kind::Transfer) && rng.chance(1, 4);
             let mut params = Vec::new();
-            if is_fun {
+            let mut delegate: Option<Delegate> = None;
+            if !is_ref && rng.chance(1, 5) {
+                // forward to an earlier function with >= 2 parameters (own module or imported)
+                let mut cands: Vec<Delegate> = headers
+                    .iter()
+                    .filter(|h| h.params.len() >= 2)
+                    .map(|h| Delegate { qualifier: None, name: h.name.clone(), binder: h.binder, params: h.params.clone() })
+                    .collect();
+                for imp in imports.iter() {
+                    for d in mods[imp.module].decls.iter().filter(|d| d.params.len() >= 2) {
+                        cands.push(Delegate { qualifier: imp.qualifier.clone(), name: d.name.clone(), binder: d.binder, params: d.params.clone() });
+                    }
+                }
+                if !cands.is_empty() {
+                    let g = cands[rng.below(cands.len())].clone();
+                    let first = g.params[0].0.clone();
+                    // the callee must stay nameable: our parameter is not called like it
+                    if first != g.name && first != name {
+                        let gk = if g.qualifier.is_some() { mods.iter().flat_map(|m| m.decls.iter()).find(|d| d.binder == g.binder).map(|d| d.kind) } else { headers.iter().find(|h| h.binder == g.binder).map(|h| h.kind) };
+                        if let Some(gk) = gk {
+                            kind = gk;
+                            is_fun = true;
+                            params.push((first, g.params.last().unwrap().1));
+                            delegate = Some(g);
+                            features.insert("delegating_function");
+                        }
+                    }
+                }
+            }
+            if is_fun && delegate.is_none() {
                 let np = rng.range(1, 3);
                 let mut extra: Vec<String> = own_names.iter().filter(|n| !n.starts_with('@')).cloned().collect();
                 extra.extend(flat_names.iter().filter(|n| !n.starts_with('@')).cloned());
@@ -1086,6 +1127,7 @@ pub fn generate(rng: &mut Rng, cfg: &GenCfg) -> ProgramAst {
                 params,
                 binder: b,
                 prop_name: None,
+                delegate,
             });
         }
         let all_own_names: Vec<(String, usize)> = headers.iter().map(|d| (d.name.clone(), d.binder)).collect();
@@ -1187,7 +1229,21 @@ pub fn generate(rng: &mut Rng, cfg: &GenCfg) -> ProgramAst {
             } else {
                 let depth = cx.rng.range(1, cfg.max_depth);
                 // functions should use their parameters
-                let (mut v, _) = if !cx.params.is_empty() {
+                let (mut v, _) = if let Some(g) = d.delegate.clone() {
+                    let mut v = cx.use_tok(g.qualifier.clone(), &g.name, Some(g.binder));
+                    let own = cx.params[0].clone();
+                    let last = g.params.len() - 1;
+                    for (i, (_, pk)) in g.params.iter().enumerate() {
+                        if i == last {
+                            cx.note_shadow(own.binder);
+                            v.extend(cx.use_tok(None, &own.name, Some(own.binder)));
+                        } else {
+                            v.extend(cx.term(*pk, 0));
+                        }
+                    }
+                    cx.features.insert("application");
+                    (v, false)
+                } else if !cx.params.is_empty() {
                     gen_function_body(&mut cx, d.kind, depth)
                 } else {
                     cx.expr(d.kind, depth)
@@ -1278,6 +1334,14 @@ pub fn generate(rng: &mut Rng, cfg: &GenCfg) -> ProgramAst {
                 toks,
             });
         }
+        if rng.chance(1, 3) && !all.is_empty() {
+            // `use` is allowed anywhere at top level: scatter the imports among the statements
+            for imp in all.drain(..).collect::<Vec<_>>() {
+                let at = rng.below(stmts.len() + 1);
+                stmts.insert(at, imp);
+            }
+            features.insert("late_import");
+        }
         all.extend(stmts);
         asts[m].stmts = all;
     }
@@ -1364,6 +1428,15 @@ fn gen_function_body(cx: &mut Cx, k: Kind, depth: usize) -> (Vec<Tok>, bool) {
         Kind::S(SK::Obj) => {
             let mut v = vec![t("{")];
             let mut first = true;
+            if depth > 0 && cx.rng.chance(1, 3) {
+                // a recursion first - its binder likes to take a parameter's name - then the
+                // parameters: uses *after* the rec expression must still reach the parameter
+                let n = cx.prop_name();
+                v.push(t(&n));
+                let r = cx.recursion(SK::Obj, 1);
+                v.extend(cx.parens(r));
+                first = false;
+            }
             for p in prop_params.iter() {
                 if !first {
                     v.push(t(","));
